@@ -26,6 +26,59 @@ type SocketFn struct {
 	Listen bool // returns only error and starts goroutines: the event listener
 }
 
+// goClosuresOf: the function literals a function starts as goroutines (directly).
+func goClosuresOf(fn *ssa.Function) []*ssa.Function {
+	var out []*ssa.Function
+	for _, b := range fn.Blocks {
+		for _, in := range b.Instrs {
+			if g, ok := in.(*ssa.Go); ok {
+				if mc, ok := g.Call.Value.(*ssa.MakeClosure); ok {
+					if f, ok := mc.Fn.(*ssa.Function); ok {
+						out = append(out, f)
+					}
+				}
+			}
+		}
+	}
+	return out
+}
+
+// sharedVarReturned: the variable the closure captures as fv is one whose value the parent returns.
+func sharedVarReturned(parent, clos *ssa.Function, fv *ssa.FreeVar) bool {
+	idx := -1
+	for i, f := range clos.FreeVars {
+		if f == fv {
+			idx = i
+		}
+	}
+	if idx < 0 {
+		return false
+	}
+	for _, b := range parent.Blocks {
+		for _, in := range b.Instrs {
+			mc, ok := in.(*ssa.MakeClosure)
+			if !ok || mc.Fn != ssa.Value(clos) || idx >= len(mc.Bindings) {
+				continue
+			}
+			al, ok := mc.Bindings[idx].(*ssa.Alloc)
+			if !ok || al.Referrers() == nil {
+				return true // cannot tell: treat as returned
+			}
+			for _, ref := range *al.Referrers() {
+				if ld, ok := ref.(*ssa.UnOp); ok && ld.Op == token.MUL && ld.Referrers() != nil {
+					for _, r2 := range *ld.Referrers() {
+						switch r2.(type) {
+						case *ssa.Return, *ssa.Store: // returned, or spilled into a result slot before the deferred calls run
+							return true
+						}
+					}
+				}
+			}
+		}
+	}
+	return false
+}
+
 func isOpenCall(name string) bool {
 	return name == "net.ListenUDP" || name == "(*net.Dialer).Dial" || name == "net.DialUDP" || name == "net.Dial" || name == "net.DialTimeout" || name == "net.ListenPacket" || name == "(*net.Dialer).DialContext" || name == "net.DialTCP"
 }
@@ -128,6 +181,9 @@ func isCall(e Event, suffix string) bool {
 
 // connOf: the connection value produced by the open call on this path (result #0), if it succeeded.
 func connOf(pa Path) (conn string, openIdx int, ok bool) {
+	// the first open that succeeded; when none did, the last one attempted (an open repeated after a failure is
+	// part of the path like the first)
+	conn, openIdx = "", -1
 	for i, e := range pa.Events {
 		if e.Kind == "call" && isOpenCall(e.Name) && e.Result != nil {
 			c0 := e.Result.String() + "#0"
@@ -139,10 +195,10 @@ func connOf(pa Path) (conn string, openIdx int, ok bool) {
 			if okE && errNil && (!okC || !connNil) {
 				return c0, i, true
 			}
-			return c0, i, false
+			conn, openIdx = c0, i
 		}
 	}
-	return "", -1, false
+	return conn, openIdx, false
 }
 
 func mentions(e Event, s string) bool {
@@ -320,18 +376,31 @@ func RuleTransport(r *Report, p *Program, rules aspectSet) {
 					}
 				}
 			}
-			// ---- T6 bind address
+			// ---- T6 bind address: of every socket this path opens or tries to open (a second attempt after a failed
+			// one included), the whole address - IP and port
 			if !sf.Listen {
-				oe := pa.Events[openIdx]
-				local := ""
-				if sf.IsDial {
-					local = deepField(oe.Deep[0], "LocalAddr")
-				} else if len(oe.Deep) > 1 {
-					local = oe.Deep[1]
-				}
-				anyAddr := strings.Contains(local, "net.IPv4(0,0,0,0)") || strings.Contains(local, "IP:[0,0,0,0,0,0,0,0,0,0,255,255,0,0,0,0],Port:0") || strings.Contains(local, "IP:[0,0,0,0],Port:0")
-				if !(strings.Contains(local, "u.bindAddr") || (anyAddr && bindNil(pa))) {
-					t6 = "local address of the socket is " + cut(local, 120) + ", not derived from the configured bind address"
+				for _, oe := range pa.Events {
+					if oe.Kind != "call" || !isOpenCall(oe.Name) || oe.Result == nil || len(oe.Deep) == 0 {
+						continue
+					}
+					local := ""
+					if sf.IsDial {
+						local = deepField(oe.Deep[0], "LocalAddr")
+					} else if len(oe.Deep) > 1 {
+						local = oe.Deep[1]
+					}
+					if os.Getenv("UHLINT_DEBUG") == "T6" {
+						fmt.Fprintf(os.Stderr, "T6 %s local=%s\n", sf.Name, local)
+					}
+					anyAddr := strings.Contains(local, "net.IPv4(0,0,0,0)") || strings.Contains(local, "IP:[0,0,0,0,0,0,0,0,0,0,255,255,0,0,0,0],Port:0") || strings.Contains(local, "IP:[0,0,0,0],Port:0")
+					fromBind := strings.Contains(local, "u.bindAddr")
+					if fromBind && (strings.HasPrefix(local, "&{") || strings.HasPrefix(local, "{")) && strings.Contains(local, "IP:") && strings.Contains(local, "Port:") {
+						// assembled field by field: both the address and the port are the configured ones
+						fromBind = strings.Contains(deepField(local, "IP"), "u.bindAddr") && strings.Contains(deepField(local, "Port"), "u.bindAddr")
+					}
+					if !(fromBind || (anyAddr && bindNil(pa))) {
+						t6 = "local address of the socket opened at " + p.Pos(oe.Pos) + " is " + cut(local, 120) + ", not the configured bind address and port"
+					}
 				}
 			}
 			if sf.Listen {
@@ -650,6 +719,36 @@ func RuleTransport(r *Report, p *Program, rules aspectSet) {
 				return
 			}
 			r.Check(bad == "", rule, sf.Name, pos, fmt.Sprintf("%d paths (%d loop-bounded)", len(sf.Paths), sf.Trunc), bad)
+		}
+		// T10 (goroutines): what a goroutine of the function shares with it and the function returns - the list of
+		// replies - only grows: the goroutine appends, it never stores into an element that may already have been
+		// handed to the caller (the caller would see its result change, unsynchronised)
+		if t10 == "" && !sf.Listen {
+			for _, mc := range goClosuresOf(sf.Fn) {
+				for _, b := range mc.Blocks {
+					for _, in := range b.Instrs {
+						st, ok := in.(*ssa.Store)
+						if !ok {
+							continue
+						}
+						ia, ok := st.Addr.(*ssa.IndexAddr)
+						if !ok {
+							continue
+						}
+						ld, ok := ia.X.(*ssa.UnOp)
+						if !ok || ld.Op != token.MUL {
+							continue
+						}
+						fv, ok := ld.X.(*ssa.FreeVar)
+						if !ok {
+							continue
+						}
+						if _, isSl := ld.Type().Underlying().(*types.Slice); isSl && sharedVarReturned(sf.Fn, mc, fv) {
+							t10 = "a goroutine of the function stores into an element of " + fv.Name() + " (" + p.Pos(st.Pos()) + "), a list the function returns: the caller's result changes after it was handed over"
+						}
+					}
+				}
+			}
 		}
 		emit("T1", t1)
 		emit("T2", t2)
